@@ -107,6 +107,21 @@ Theorem return_enabled_when_done : forall mss tr s ci cl,
 Proof. exact return_enabled_lemma. Qed.
 Print Assumptions return_enabled_when_done.
 
+(* What Many panics with does not matter: a string, an error value, a runtime.Error raised by the Go runtime (nil-map
+   write, index out of range, nil dereference, failed type assertion, division by zero) or a value of any other
+   type - safeInvoke recovers each of them and the group gets the same error; the step is the same for every kind
+   ([pkind] is the label's parameter) ... *)
+Theorem panic_value_irrelevant : forall s g k1 k2, step s (LRun g (OPanic k1)) = step s (LRun g (OPanic k2)).
+Proof. exact panic_kind_irrelevant_lemma. Qed.
+Print Assumptions panic_value_irrelevant.
+
+(* ... and after a panic of any kind the creator's next step closes doneCh with the panic error stored: with
+   return_enabled_when_done, every caller of the group - the creator included - returns that error. *)
+Theorem panic_of_any_kind_then_done : forall s g k s', step s (LRun g (OPanic k)) = Some s' ->
+  exists s2 g2, step s' (LDone g) = Some s2 /\ nth_error (groups s2) g = Some g2 /\ g_done g2 = true /\ g_err g2 = Some EPanic.
+Proof. exact panic_then_done_lemma. Qed.
+Print Assumptions panic_of_any_kind_then_done.
+
 (* ---- cancellation: whose context, and what the surviving callers get ---- *)
 
 (* Creator-cancel.  A group ends Cancelled only through its creator's context (g_ctxc); then Many is never called
@@ -274,3 +289,11 @@ Example ex_early_and_late :
   prun cfg1 (tinit [0]) [ at_ 0 (LJoin 0 1 0 false); at_ 400 (LWake 0 CInterval) ] = None /\
   (eff_wait [(0, -5)%Z] 0, eff_maxdur [(0, -5)%Z] 0) = (1000000, 20000000)%Z.
 Proof. vm_compute. repeat split; try reflexivity. eexists. reflexivity. Qed.
+
+(* Many panics with a runtime.Error in a group of three: everyone gets the panic error, creator included *)
+Example ex_runtime_panic :
+  option_map (fun s => map c_ret (callers s))
+    (run (init [0]) [ LJoin 0 1 0 false; LJoin 0 2 0 false; LJoin 0 3 0 false; LWake 0 CInterval; LUnpublish 0;
+                      LRun 0 (OPanic PRuntime); LDone 0; LReturn 0; LReturn 1; LReturn 2 ])
+  = Some [Some (RErr EPanic); Some (RErr EPanic); Some (RErr EPanic)].
+Proof. vm_compute. reflexivity. Qed.
